@@ -291,7 +291,11 @@ def canon(v, it, st, depth=0, shape=None):
         except Exception:
             return ("Ptr?",)
     if isinstance(v, Opaque):
-        return ("Opaque", v.kind, tuple(canon(f, it, st, depth + 1, shape) if isinstance(f, (W, CS, Agg, Arr, Ptr, Opaque, TopV)) else f for f in v.data))
+        return ("Opaque", v.kind, tuple(canon(f, it, st, depth + 1, shape) for f in v.data))
+    if isinstance(v, (tuple, list)):
+        return ("Tuple",) + tuple(canon(f, it, st, depth + 1, shape) for f in v)
+    if isinstance(v, (str, int)) or v is None:
+        return v
     if isinstance(v, TopV):
         return ("Top", v.cause)
     return ("?", repr(v))
